@@ -111,7 +111,7 @@ CHECKS.update({
         note=SHELL_NOTE, technique="Lean 4 proof (simulation between runs with different budgets, induction on fuel) + bit-exact replay + re-run differential",
         design_ref="DESIGN.md §4 C07"),
     "C08": dict(
-        text="firstLocalMin_unique / gcp_is_the_first_local_min (the two properties determine t*), cauchy_unconstrained_step (x - (g.g/g.Bg) g when no bound is met), cauchy_point_shift / cauchy_shift_nofactor (Props/C08Shift: with x, lb, ub translated by one constant and the same gradient and model, the Cauchy point is the translated Cauchy point — the projected path is translated, the model value along it is the same function, the first local minimiser is unique; without pairs for every feasible input and theta > 0), cauchy_point_units / cauchy_units_nofactor (the Cauchy point of the same problem in other units is the rescaled point). Theorems over Model/Cauchy.lean: order_sorted / order_positive / order_nodup (breakpoints "
+        text="firstLocalMin_unique / gcp_is_the_first_local_min (the two properties determine t*), cauchy_unconstrained_step (x - (g.g/g.Bg) g when no bound is met), cauchy_point_shift / cauchy_shift_nofactor (Props/C08Shift: with x, lb, ub translated by one constant and the same gradient and model, the Cauchy point is the translated Cauchy point — the projected path is translated, the model value along it is the same function, the first local minimiser is unique; without pairs for every feasible input and theta > 0; the real routine is run on the translated twin of every kernel input that has a unit twin and must return the translated point within the tolerance of the reference comparison), cauchy_point_units / cauchy_units_nofactor (the Cauchy point of the same problem in other units is the rescaled point). Theorems over Model/Cauchy.lean: order_sorted / order_positive / order_nodup (breakpoints "
              "examined in non-decreasing order, only positive ones, each once — for any arithmetic), gcp_in_box (the returned point is in the box, any "
              "arithmetic), gcp_on_projected_path; gcp_first_local_min (ordered field, Props/C08Min): the point returned is P(x - t* g) where the model value "
              "phi(t) = m(P(x - t g) - x) is STRICTLY DECREASING on [0, t*] and phi(t*) <= phi(t) on a right neighbourhood, the auxiliary vector is "
